@@ -67,7 +67,23 @@ def make_classes():
         def _getparamnames(self, prefix=""):
             return [prefix + "m_"]
 
-    return {"mvonly": MvOnly, "mvrmv": MvRmv, "mvmm": MvMm, "all": AllProducts}
+    class Nonlinear(LinearOperator):
+        """matrix-free operator that depends non-linearly on its parameter: A(w) = w*w (elementwise) + I"""
+
+        def __init__(self, w):
+            super().__init__(shape=w.shape, dtype=w.dtype, device=w.device)
+            self.w = w
+
+        def _mat(self):
+            return self.w * self.w + torch.eye(self.w.shape[-1], dtype=self.w.dtype)
+
+        def _mv(self, x):
+            return torch.matmul(self._mat(), x.unsqueeze(-1)).squeeze(-1)
+
+        def _getparamnames(self, prefix=""):
+            return [prefix + "w"]
+
+    return {"mvonly": MvOnly, "mvrmv": MvRmv, "mvmm": MvMm, "all": AllProducts, "nonlinear": Nonlinear}
 
 
 def build_operator(kind, mats, classes=None):
@@ -82,6 +98,8 @@ def build_operator(kind, mats, classes=None):
         return LinearOperator.m(m, is_hermitian=True), m
     if kind == "herm_mv":
         return cl["mvonly"](m, is_hermitian=True), m
+    if kind == "nonlinear":
+        return cl[kind](m), m * m + torch.eye(m.shape[-1], dtype=m.dtype)
     if kind in cl:
         return cl[kind](m), m
     if kind == "add":
